@@ -356,6 +356,30 @@ def apply(rc):
     if "structure_score" in actual and not norm(actual["structure_score"]).endswith("structure_prior_ratio"):
         rc.fail(fi, c, "the structure prior ratio of the score must be passed as structure_score", construct="forward prior")
     model_var = dotted(actual.get("model"))
+    # the local-score function must belong to the score object of THIS call (directly or through a cache built in this call)
+    sname = dotted(actual.get("score"))
+    score_obj = None
+    pr = actual.get("structure_score")
+    if pr is not None and isinstance(pr, ast.Attribute):
+        score_obj = dotted(pr.value)
+    defs = [n.value for n in walk_no_nested(fn) if isinstance(n, ast.Assign) and dotted(n.targets[0]) == sname]
+    for d in defs:
+        okd = False
+        if isinstance(d, ast.Attribute) and d.attr == "local_score":
+            base = d.value
+            if dotted(base) == score_obj:
+                okd = True
+            elif isinstance(base, ast.Call) and call_name(base) == "ScoreCache" and base.args and dotted(base.args[0]) == score_obj:
+                okd = True
+            elif isinstance(base, ast.Name):
+                cd = [n.value for n in walk_no_nested(fn) if isinstance(n, ast.Assign) and dotted(n.targets[0]) == base.id]
+                okd = bool(cd) and all(isinstance(x, ast.Call) and call_name(x) == "ScoreCache" and x.args and dotted(x.args[0]) == score_obj for x in cd)
+        rc.ob(f"local-score function {sname} = {norm(d)} (bound to this call's score `{score_obj}`: {okd})")
+        if not okd:
+            rc.fail(fi, d, f"the local-score function used by the search must come from this call's score object `{score_obj}` (or a cache built around it in this call); "
+                    f"`{norm(d)}` can carry scores of an earlier call with other data/hyper-parameters", construct=f"score function {norm(d, 80)}")
+    if not defs:
+        rc.fail(fi, c, "cannot find where the local-score function is bound", construct="score function binding")
     # arg-max by delta
     par = getattr(c, "_parent", None)
     if not (isinstance(par, ast.Call) and call_name(par) == "max"):
@@ -634,6 +658,8 @@ MUTANTS = [
          old="                current_model.add_edge(Y, X)\n", new="                current_model.add_edge(X, Y)\n"),
     dict(kind="break", name="min-by-delta", file=HC, expect="C11.apply",
          old="                key=lambda t: t[1],\n                default=(None, None),", new="                key=lambda t: t[0],\n                default=(None, None),"),
+    dict(kind="break", name="score-cache-outlives-call", file=HC, expect="C11.apply",
+         old="            score_fn = ScoreCache.ScoreCache(score, self.data).local_score", new="            if getattr(self, \"_score_cache\", None) is None:\n                self._score_cache = ScoreCache.ScoreCache(score, self.data)\n            score_fn = self._score_cache.local_score"),
     dict(kind="break", name="no-acyclic-check-of-start", file=HC, expect="C11.seed",
          old="            if not nx.is_directed_acyclic_graph(start_dag):\n                raise ValueError(\n                    \"fixed_edges creates a cycle in start_dag. Please modify either fixed_edges or start_dag.\"\n                )",
          new="            pass"),
